@@ -31,6 +31,7 @@ ODD_LINES = [
     'DATA {p} -1', 'DATA {p} 99999999999999999999999999', 'DATA {p}', 'DATA', 'FOO {p} 1', 'DIST a/b 1', 'TIMESTAMP 2017-13-01T00:00:00Z',
     'DATA {p} {s} SHA1', 'MANIFEST {d}/Manifest 3', 'MANIFEST {p} {s}', 'OPTIONAL {p}', 'DATA ../{p} {s}', 'DATA {p}/ 0',
     'DATA {p} {s} SHA1 zz', 'EBUILD {p} {s} __size__ 5', 'DATA {p} {s} MD5 00 MD5 11', 'AUX {p} {s}', 'DIST {p} 1 SHA1 00',
+    'IGNORE {h}', 'IGNORE {h}', 'DATA {h}/x 0',                               # a hidden directory that is IGNOREd as well / has entries
     '@IGNORE-MANIFEST', '@IGNORE-MANIFEST', '@IGNORE-MANIFEST-TOO',       # a sub-Manifest file that is IGNOREd (instead of / besides being registered)
 ]
 
@@ -61,7 +62,9 @@ def add_odd_lines(r, c):
             f = r.choice(files)
             d = r.choice(dirs)
             rel = lambda x: os.path.relpath(x, md) if md else x
-            line = r.choice(ODD_LINES).format(p=ET.impl.encode_path(rel(f)), d=ET.impl.encode_path(rel(d)), s=r.choice(['0', '1', '6']))
+            hidden = [x for x in c.meta['dirs'] if x and os.path.basename(x).startswith('.') and (not md or x.startswith(md + '/'))] or ['.nohidden']
+            line = r.choice(ODD_LINES).format(p=ET.impl.encode_path(rel(f)), d=ET.impl.encode_path(rel(d)), s=r.choice(['0', '1', '6']),
+                                              h=ET.impl.encode_path(rel(r.choice(hidden))))
         if line.startswith('@IGNORE-MANIFEST'):
             ks = [k for k, x in enumerate(lines) if x.startswith('MANIFEST ') and len(x.split()) >= 2]
             if not ks:
